@@ -269,6 +269,10 @@ pub struct CsvLayout {
     pub dateless_rows: bool,
     /// a rewrite rule with `conversion: {disabled: true}` for payees starting with NOCONV
     pub disable_rule: bool,
+    /// the document-level conversion states the wrong rate side; two rewrite rules that match every
+    /// foreign-currency row carry a conversion each, the first wrong again, the last the right one (rules apply in
+    /// list order, a later matching rule's setting replaces an earlier one)
+    pub override_rules: bool,
     pub blank_preamble_line: bool,
     /// `conversion.commodity` overrides whatever the secondary-commodity cell says
     pub commodity_override: bool,
@@ -341,6 +345,7 @@ impl CsvCase {
             compute: rng.chance(1, 3),
             dateless_rows: rng.chance(1, 4),
             disable_rule: conversion_cols && rng.chance(1, 3),
+            override_rules: conversion_cols && rng.chance(1, 5),
             blank_preamble_line: rng.chance(1, 2),
             commodity_override: conversion_cols && rng.chance(1, 3),
         };
@@ -522,18 +527,19 @@ impl CsvCase {
         // configuration
         let mut y = String::new();
         y.push_str(&format!("path: {}\nencoding: UTF-8\naccount: {}\naccount_type: {}\n", yaml_str(&self.file_name), yaml_str(&self.account), if l.liability { "liability" } else { "asset" }));
+        let right_rate = if l.rate_mode == RateMode::PriceOfSecondary { "price_of_secondary" } else { "price_of_primary" };
+        let wrong_rate = if l.rate_mode == RateMode::PriceOfSecondary { "price_of_primary" } else { "price_of_secondary" };
+        // all foreign rows of one file share one secondary commodity
+        let override_commodity = if l.commodity_override { self.rows.iter().find_map(|r| r.conv.as_ref().map(|c| c.sec_commodity.clone())) } else { None };
         if l.conversion_cols {
             y.push_str(&format!(
                 "commodity:\n  primary: {}\n  conversion:\n    amount: {}\n    rate: {}\n",
                 self.primary,
                 if l.compute { "compute" } else { "extract" },
-                if l.rate_mode == RateMode::PriceOfSecondary { "price_of_secondary" } else { "price_of_primary" }
+                if l.override_rules { wrong_rate } else { right_rate }
             ));
-            if l.commodity_override {
-                // all foreign rows of one file share one secondary commodity
-                if let Some(c) = self.rows.iter().find_map(|r| r.conv.as_ref().map(|c| c.sec_commodity.clone())) {
-                    y.push_str(&format!("    commodity: {}\n", c));
-                }
+            if let Some(c) = &override_commodity {
+                y.push_str(&format!("    commodity: {}\n", c));
             }
         } else {
             y.push_str(&format!("commodity: {}\n", self.primary));
@@ -566,8 +572,18 @@ impl CsvCase {
                 y.push_str(&format!("    {}: {}\n", key, i + 1));
             }
         }
+        if l.override_rules {
+            let mut rules = String::new();
+            for rate in [wrong_rate, right_rate] {
+                rules.push_str(&format!("  - matcher:\n      secondary_commodity: \".\"\n    conversion:\n      amount: {}\n      rate: {}\n", if l.compute { "compute" } else { "extract" }, rate));
+                if let Some(c) = &override_commodity {
+                    rules.push_str(&format!("      commodity: {}\n", c));
+                }
+            }
+            push_rules(&mut y, &rules);
+        }
         if l.disable_rule {
-            y.push_str("rewrite:\n  - matcher:\n      payee: \"^NOCONV\"\n    conversion:\n      disabled: true\n");
+            push_rules(&mut y, "  - matcher:\n      payee: \"^NOCONV\"\n    conversion:\n      disabled: true\n");
         }
         self.config_yaml = y;
     }
@@ -699,6 +715,8 @@ pub struct CamtDetail {
     /// how the charge is written: 1 = one record, 2 = two equal records, 3 = two unequal records,
     /// 4 = one record next to a zero-amount record
     pub charge_records: u8,
+    /// a detail without charge may still carry a `<Chrgs>` element whose records are all 0.00
+    pub zero_charge_records: u8,
 }
 
 #[derive(Clone, Debug)]
@@ -743,6 +761,8 @@ pub struct CamtCase {
     /// in file order
     pub entries: Vec<CamtEntry>,
     pub new_to_old: bool,
+    /// 0: OPBD then CLBD; 1: CLBD then OPBD
+    pub balance_layout: u8,
     pub account: String,
     pub file_name: String,
     pub xml: String,
@@ -809,6 +829,7 @@ impl CamtCase {
                     charge,
                     charge_is_credit,
                     charge_records: *rng.pick(&[1u8, 1, 1, 2, 3, 4]),
+                    zero_charge_records: if charge.is_none() && rng.chance(1, 8) { 1 + rng.below(2) as u8 } else { 0 },
                 });
                 let d = details.last().unwrap();
                 total = total.add(d.signed()).unwrap();
@@ -833,7 +854,7 @@ impl CamtCase {
         if new_to_old {
             entries.reverse();
         }
-        let mut case = CamtCase { currency, opening, closing: bal, entries, new_to_old, account: random_account(rng, "Assets"), file_name: format!("camt{}.xml", rng.below(1000)), xml: String::new(), config_yaml: String::new() };
+        let mut case = CamtCase { currency, opening, closing: bal, entries, new_to_old, balance_layout: *rng.pick(&[0u8, 0, 1]), account: random_account(rng, "Assets"), file_name: format!("camt{}.xml", rng.below(1000)), xml: String::new(), config_yaml: String::new() };
         case.render();
         case
     }
@@ -850,8 +871,15 @@ impl CamtCase {
                 if v.signum() < 0 { "DBIT" } else { "CRDT" }
             )
         };
-        x.push_str(&bal("OPBD", self.opening));
-        x.push_str(&bal("CLBD", self.closing));
+        // (okane's reader knows the balance codes OPBD and CLBD only: other ISO codes make it reject the
+        // file, which is a limitation outside the statement and is not exercised)
+        let order: Vec<(&str, Q)> = match self.balance_layout {
+            0 => vec![("OPBD", self.opening), ("CLBD", self.closing)],
+            _ => vec![("CLBD", self.closing), ("OPBD", self.opening)],
+        };
+        for (code, v) in order {
+            x.push_str(&bal(code, v));
+        }
         for e in &self.entries {
             x.push_str("      <Ntry>\n");
             x.push_str(&format!("        <Amt Ccy=\"{}\">{}</Amt>\n        <CdtDbtInd>{}</CdtDbtInd>\n        <Sts>BOOK</Sts>\n", c, money(e.amount), if e.credit { "CRDT" } else { "DBIT" }));
@@ -901,6 +929,12 @@ impl CamtCase {
                             x.push_str(&format!("<Rcrd><Amt Ccy=\"{}\">{}</Amt><CdtDbtInd>{}</CdtDbtInd><ChrgInclInd>true</ChrgInclInd></Rcrd>", c, money(part), if d.charge_is_credit { "CRDT" } else { "DBIT" }));
                         }
                         x.push_str("</Chrgs>\n");
+                    } else if d.zero_charge_records > 0 {
+                        x.push_str("            <Chrgs>");
+                        for _ in 0..d.zero_charge_records {
+                            x.push_str(&format!("<Rcrd><Amt Ccy=\"{}\">0.00</Amt><CdtDbtInd>DBIT</CdtDbtInd><ChrgInclInd>true</ChrgInclInd></Rcrd>", c));
+                        }
+                        x.push_str("</Chrgs>\n");
                     }
                     if d.creditor.is_some() || d.debtor.is_some() || d.ultimate_debtor.is_some() {
                         x.push_str("            <RltdPties>");
@@ -929,7 +963,11 @@ impl CamtCase {
         }
         x.push_str("    </Stmt>\n  </BkToCstmrStmt>\n</Document>\n");
         self.xml = x;
-        let mut y = format!("path: {}\nencoding: UTF-8\naccount: {}\naccount_type: asset\noperator: Okane Bank (fee)\ncommodity: {}\nformat:\n", yaml_str(&self.file_name), yaml_str(&self.account), self.currency);
+        // the operator (payee of charge postings) is optional; it is left out of some configurations
+        // of statements that carry no charge other than 0.00 records
+        let charged = self.entries.iter().any(|e| e.details.iter().any(|d| d.charge.is_some()));
+        let operator = if !charged && self.file_name.bytes().map(|b| b as usize).sum::<usize>() % 2 == 0 { "" } else { "operator: Okane Bank (fee)\n" };
+        let mut y = format!("path: {}\nencoding: UTF-8\naccount: {}\naccount_type: asset\n{}commodity: {}\nformat:\n", yaml_str(&self.file_name), yaml_str(&self.account), operator, self.currency);
         if self.new_to_old {
             y.push_str("  row_order: new_to_old\n");
         }
